@@ -89,6 +89,10 @@ def scenarios(prop, tier):
         S.append(("get3-rst3", gets(3), dict(rst=[3]), {}))
         two = [dict(name="r1", url="http://a.test/1", gates=("read",)), dict(name="r2", url="http://b.test/2", gates=("read",)), dict(name="r3", url="http://a.test/3"), dict(name="r4", url="http://b.test/4")]
         S.append(("two-origins-2x2", two, dict(), {}))
+        # the server CHANGES its stream limit while several bodies are being read (what each caller gets must
+        # still be its own response, in order; that callers may hang here is KF08, C12's business)
+        S.append(("get3-up3-down1", gets(3), dict(settings=[{"mcs": 3}, {"mcs": 1}]), {}))
+        S.append(("get4-init2-down1-up3", gets(4), dict(init_settings={SC.MAX_CONCURRENT_STREAMS: 2}, settings=[{"mcs": 1}, {"mcs": 3}]), {}))
         return S
     if prop == "C03":
         # the request side of a SHARED connection (clause reqok of RET: every complete transmission of a
@@ -353,6 +357,10 @@ def run_into(chk, prop, tier):
     for t, m, v in rejected:
         at = t["ev"][v[1] - 1] if v[1] - 1 < len(t["ev"]) else {}
         clause = at.get("e", "?")
+        if clause == "RET":
+            # what kind of RET was refused: a caller that RETURNED a response which is not its own (isolation) is
+            # a different matter from a caller that failed / was refused
+            clause += "/ok" if str(at.get("out", "")) in ("ok", "abandoned") else "/exc"
         what = f"wire log rejected by H2WireTrace at event {v[1]} of {len(t['ev'])} ({at}); scenario {m['scenario']} {m['label']}; stimuli {m['stimuli']}; outcomes {m['outcomes']}; live {m['live']}"
         chk.classify({"module": "H2Wire", "deviation": ["clause:" + clause], "stimulus": m["stimuli"]}, what, {"trace": t, "meta": m, "verdict": list(v)})
     cov = chk.coverage
